@@ -173,7 +173,7 @@ func genStructOf(r *hutil.Rng) interface{} {
 }
 
 func genParam(r *hutil.Rng) (string, interface{}) {
-	switch r.Intn(14) {
+	switch r.Intn(16) {
 	case 0:
 		return "nil", nil
 	case 1:
@@ -212,6 +212,11 @@ func genParam(r *hutil.Rng) (string, interface{}) {
 		return "bac-value", tm.BusinessActionContext{}
 	case 9:
 		return "bac-ptr", &tm.BusinessActionContext{ActionContext: map[string]interface{}{"pre": true}}
+	case 11:
+		return "nil-ptr-struct", (*pTagged)(nil)
+	case 12:
+		x, y := 7, "s"
+		return "ptr-non-struct", []interface{}{&x, &y}[r.Intn(2)]
 	case 10:
 		return "non-struct", []interface{}{5, "str", 2.5, true}[r.Intn(4)]
 	default:
